@@ -4,7 +4,7 @@ the two repair sites the tree implements), a differential run of the real msg se
 begin- and end-blockers against the model, and the spec checker vm_computed on the real observations."""
 import json, os, re
 
-FILES = ["Base/Prelude.v", "Base/Dec.v", "Model/Pools.v", "Gen/C10Cfg.v", "Model/C10Check.v", "Proofs/Pools.v", "Proofs/PoolsTree.v"]
+FILES = ["Base/Prelude.v", "Base/Dec.v", "Model/Pools.v", "Gen/C10Cfg.v", "Model/C10Check.v", "Proofs/Pools.v", "Proofs/PoolsTree.v", "Proofs/PoolsRewards.v", "Proofs/PoolsChk.v"]
 CAP_SUM_1 = {1}          # harness configurations whose stake caps sum to 1
 
 
